@@ -281,6 +281,18 @@ impl GrammarBuilder {
                             let is_bool = matches! { assignment, BoolAssignment(_) };
                             match assignment {
                                 PlainAssignment(mut assign) | BoolAssignment(mut assign) => {
+                                    // Only an unnamed EMPTY is removed above. A named one
+                                    // would stay in the RHS as a real symbol.
+                                    if matches!(&assign.gsymref.gsymbol,
+                                                Some(GrammarSymbol::Name(n)) if n.as_ref() == "EMPTY")
+                                    {
+                                        err!(
+                                            "EMPTY can't be used in an assignment or as a separator."
+                                                .to_owned(),
+                                            Some(self.file.clone()),
+                                            assign.name.span
+                                        )?
+                                    }
                                     self.check_identifier(&assign.name)?;
                                     self.desugar_regex(
                                         &mut assign.gsymref,
@@ -426,6 +438,15 @@ impl GrammarBuilder {
             } else {
                 None
             };
+            if let Some(sep) = modifier {
+                if sep.as_ref() == "EMPTY" {
+                    return err!(
+                        "EMPTY can't be used in an assignment or as a separator.".to_owned(),
+                        Some(self.file.clone()),
+                        sep.span
+                    );
+                }
+            }
             // TODO: This unwrap may fail in case of production groups use
             // which is still unimplemented but allowed by the grammar.
             let ref_type = match gsymref
